@@ -25,10 +25,11 @@ theorem C12_reserved_complete :
     Gen.reservedRecognised = true ∧
     goKeywords.all (fun k => Gen.keywords.contains k) = true ∧
     goPredeclared.all (fun k => Gen.predeclared.contains k) = true ∧
-    Gen.poolSeededFrom = ["goPredeclaredIdentifiers", "goReservedKeywords"] := by decide
+    Gen.poolSeededFrom = ["goPredeclaredIdentifiers", "goReservedKeywords", "generatorLocalIdentifiers"] := by decide
 
 /-- every reserved word is in use in the initial pool -/
-theorem C12_seed_reserved : (Gen.predeclared ++ Gen.keywords).all (fun k => decide (0 < count seedPool k)) = true := by decide
+theorem C12_seed_reserved :
+    (Gen.predeclared ++ Gen.keywords ++ Gen.generatorLocals).all (fun k => decide (0 < count seedPool k)) = true := by decide
 
 /-- **Freshness over every history.**  Starting from any pool `p` (the seeded pool after any number of
     pre-registrations), for any sequence of requested base names, the names handed out are pairwise distinct,
